@@ -13,6 +13,7 @@ for f in glob.glob("props/C*.json"):
     j = json.load(open(f))
     if j.get("claimed", True):
         t.add(j["lean_module"])
+        t.update(j.get("extra_modules", []))
         if j.get("driver"):
             t.add(j["driver"])
 print(" ".join(sorted(t)))
